@@ -543,6 +543,15 @@ func returnsPrimitiveValue(fn *ssa.Function, conv map[*ssa.Function]map[int]bool
 				}
 			}
 			return true
+		case *ssa.TypeAssert:
+			// the [[PrimitiveValue]] of a wrapper object: object.value asserted to Value (CLASS-PAYLOAD: the
+			// constructors of Number / String / Boolean objects store a primitive)
+			if ld, ok := x.X.(*ssa.UnOp); ok && isFieldAddr(ld.X, "object", "value") && typeIs(x.AssertedType, ottoPath, "Value") {
+				return true
+			}
+			return false
+		case *ssa.Extract:
+			return prim(x.Tuple, d+1)
 		case *ssa.UnOp:
 			if al, ok := x.X.(*ssa.Alloc); ok {
 				// a Value literal: the kind stored into it
